@@ -28,6 +28,9 @@ def main(argv):
     cmd = argv[1]
     if cmd == "setup":
         return setup()
+    if cmd == "selftest":
+        import selftest
+        return selftest.main()
     tier_arg = None
     replay = None
     rest = argv[2:]
